@@ -389,14 +389,14 @@ def boundary_cases(kind, layer, archive, tier, seed, d, memo):
     state, so that the offsets hit the boundaries exactly)."""
     rnd = random.Random("%s-%d-bound" % (kind, seed))
     thorough = tier == "thorough"
-    contents = [b"abc\ndef", b"l1\nl2\n\nl4", b""] + ([b"x", b"0123456789", (b"0123456789abcde\n" * 600)[:9001]] if thorough else [])
-    modes = ["r"] if archive else MODES
+    big = (b"0123456789abcde\n" * 600)[:9001]   # larger than the zip / io buffer sizes (thorough only)
+    contents = [b"abc\ndef", b"l1\nl2\n\nl4", b""] + ([b"x", b"0123456789", big] if thorough else [])
     probe = [("tell",), ("read", 2), ("tell",), ("readline",), ("tell",)]
     wprobe = [("write", b"Q"), ("tell",), ("seek", 0, 0), ("read", None)]
     out = []
     stats = dict(combos=0, interleaved=0)
     for content in contents:
-        for mode in modes:
+        for mode in (["r"] if archive else ["r", "r+"] if content is big else MODES):
             size0 = 0 if "w" in mode else len(content)
             inters = b_inters(mode, archive, layer)
             for pname, prefix in b_prefixes(mode, size0, archive):
